@@ -88,6 +88,22 @@ func submgrStaleCells() []cellSpec {
 	return out
 }
 
+// submgrFaultCells: one release operation of the termination fails once.
+func submgrFaultCells() []cellSpec {
+	var out []cellSpec
+	for _, p := range []string{"admin", "idle", "session-timeout", "coa-disconnect"} {
+		for _, pre := range []string{"addressed", "active"} {
+			for _, f := range []string{"release-ipv4", "release-ipv6"} {
+				out = append(out, cellSpec{Kind: "submgr", Path: p, Prefix: pre, Second: "none", Fault: f})
+			}
+		}
+		if p != "session-timeout" {
+			out = append(out, cellSpec{Kind: "submgr", Path: p, Prefix: "active", Second: "none", Fault: "acct-stop-retried"})
+		}
+	}
+	return out
+}
+
 func genSubMgr(s src, c cellSpec, base *params) *tcase {
 	tc := &tcase{Kind: c.Kind, Path: c.Path, Prefix: c.Prefix, Second: c.Second, ParkAt: c.ParkAt}
 	if base != nil {
@@ -111,6 +127,11 @@ func genSubMgr(s src, c cellSpec, base *params) *tcase {
 		by = append(by, "ip")
 	}
 	tc.P.CoABy = pick(s, "coa.by", by)
+	tc.P.DualStack = chance(s, "dual", 2, 3)
+	tc.Fault = c.Fault
+	if c.Fault == "release-ipv4" || c.Fault == "release-ipv6" {
+		tc.P.DualStack = true
+	}
 	if secondShape(c.Second) == "stale" {
 		// the sweep needs a list: two background sessions that expire together with the session under test
 		for i := len(tc.P.BgMACs); i < 2; i++ {
@@ -130,6 +151,12 @@ type fakeAlloc struct {
 	freeRel  int               // releases of an address that was free
 	gate     *gate
 	released []string
+
+	owner6   map[string]string // IPv6 address -> session id
+	calls6   map[string]int
+	freeRel6 int
+	failV4   int // the next n ReleaseIPv4 calls return an error and release nothing
+	failV6   int
 }
 
 func (a *fakeAlloc) AllocateIPv4(ctx context.Context, s *subscriber.Session, poolID string) (net.IP, net.IPMask, net.IP, error) {
@@ -146,13 +173,28 @@ func (a *fakeAlloc) AllocateIPv4(ctx context.Context, s *subscriber.Session, poo
 }
 
 func (a *fakeAlloc) AllocateIPv6(ctx context.Context, s *subscriber.Session, poolID string) (net.IP, *net.IPNet, error) {
-	return nil, nil, fmt.Errorf("no IPv6 pool")
+	a.mu.Lock()
+	defer a.mu.Unlock()
+	for i := 2; i < 2+a.size; i++ {
+		ip := net.ParseIP(fmt.Sprintf("2001:db8:%x:%x::%x", a.base[1], a.base[2], i))
+		if _, used := a.owner6[ip.String()]; !used {
+			a.owner6[ip.String()] = s.ID
+			_, pfx, _ := net.ParseCIDR(fmt.Sprintf("2001:db8:%x:%x::/64", a.base[1], a.base[2]))
+			return ip, pfx, nil
+		}
+	}
+	return nil, nil, fmt.Errorf("IPv6 pool exhausted")
 }
 
 func (a *fakeAlloc) ReleaseIPv4(ctx context.Context, ip net.IP) error {
 	k := ip.To4().String()
 	a.mu.Lock()
 	a.calls[k]++
+	if a.failV4 > 0 {
+		a.failV4--
+		a.mu.Unlock()
+		return fmt.Errorf("allocator backend unavailable (injected)")
+	}
 	a.mu.Unlock()
 	a.gate.pass("alloc", k)
 	a.mu.Lock()
@@ -166,7 +208,34 @@ func (a *fakeAlloc) ReleaseIPv4(ctx context.Context, ip net.IP) error {
 	return nil
 }
 
-func (a *fakeAlloc) ReleaseIPv6(ctx context.Context, ip net.IP) error { return nil }
+func (a *fakeAlloc) ReleaseIPv6(ctx context.Context, ip net.IP) error {
+	k := ip.String()
+	a.mu.Lock()
+	defer a.mu.Unlock()
+	a.calls6[k]++
+	if a.failV6 > 0 {
+		a.failV6--
+		return fmt.Errorf("allocator backend unavailable (injected)")
+	}
+	if _, ok := a.owner6[k]; ok {
+		delete(a.owner6, k)
+	} else {
+		a.freeRel6++
+	}
+	return nil
+}
+
+func (a *fakeAlloc) allocated6() int {
+	a.mu.Lock()
+	defer a.mu.Unlock()
+	return len(a.owner6)
+}
+
+func (a *fakeAlloc) ownerOf6(ip net.IP) string {
+	a.mu.Lock()
+	defer a.mu.Unlock()
+	return a.owner6[ip.String()]
+}
 
 func (a *fakeAlloc) allocated() int {
 	a.mu.Lock()
@@ -202,6 +271,8 @@ func (s *stubAuth) Authenticate(ctx context.Context, req *subscriber.SessionRequ
 type smSess struct {
 	mac  net.HardwareAddr
 	id   string
+	dual bool   // also gets an IPv6 address
+	ip6  net.IP //
 	ip   net.IP
 	cid  []byte
 	stag uint16
@@ -236,7 +307,8 @@ type smRun struct {
 	me *smSess
 	bg []*smSess
 
-	allEnded bool
+	allEnded  bool
+	preAlloc6 int
 }
 
 func (x *smRun) onEvent(ev *subscriber.SessionEvent) {
@@ -362,12 +434,20 @@ func (x *smRun) establish(s *smSess, user, upto string) bool {
 	if upto == "authed" {
 		return true
 	}
-	if err := x.mgr.AssignAddress(ctx, s.id, "isp-residential", ""); err != nil {
+	v6pool := ""
+	if s.dual {
+		v6pool = "isp-v6"
+	}
+	if err := x.mgr.AssignAddress(ctx, s.id, "isp-residential", v6pool); err != nil {
 		x.res.harness = "AssignAddress: " + err.Error()
 		return false
 	}
 	if got, ok := x.mgr.GetSession(s.id); ok {
-		s.ip = got.IPv4
+		s.ip, s.ip6 = got.IPv4, got.IPv6
+	}
+	if s.dual && s.ip6 == nil {
+		x.res.harness = "dual-stack session got no IPv6 address"
+		return false
 	}
 	if upto == "addressed" {
 		return true
@@ -516,7 +596,7 @@ func runSubMgrInBubble(tc *tcase, rs *radServer, res *result, dir string) {
 			_ = x.am.Stop()
 		}
 	}()
-	x.alloc = &fakeAlloc{base: [4]byte{10, byte(p.Net), byte(p.Net3), 0}, size: 1 << uint(32-p.PoolBits), owner: map[string]string{}, calls: map[string]int{}, gate: x.gate}
+	x.alloc = &fakeAlloc{base: [4]byte{10, byte(p.Net), byte(p.Net3), 0}, size: 1 << uint(32-p.PoolBits), owner: map[string]string{}, calls: map[string]int{}, gate: x.gate, owner6: map[string]string{}, calls6: map[string]int{}}
 	x.auth = &stubAuth{res: map[string]*subscriber.AuthResult{}, err: map[string]error{}}
 	cfg := subscriber.ManagerConfig{CleanupInterval: 30 * time.Second, DefaultSessionTimeout: 24 * time.Hour, DefaultIdleTimeout: time.Duration(p.IdleS) * time.Second,
 		AuthTimeout: 10 * time.Second, MaxAuthAttempts: 3, MaxSessions: 1000, DefaultDownloadRateBps: 100_000_000, DefaultUploadRateBps: 50_000_000}
@@ -548,7 +628,7 @@ func runSubMgrInBubble(tc *tcase, rs *radServer, res *result, dir string) {
 		return
 	}
 	for i, m := range p.BgMACs {
-		b := &smSess{mac: net.HardwareAddr(m), cid: []byte(fmt.Sprintf("bg/%d", i)), stag: uint16(4001 + i), ctag: uint16(100 + i)}
+		b := &smSess{mac: net.HardwareAddr(m), cid: []byte(fmt.Sprintf("bg/%d", i)), stag: uint16(4001 + i), ctag: uint16(100 + i), dual: p.DualStack && i%2 == 0}
 		bgTimeout := 240 * time.Hour
 		if tc.shape() == "stale" && tc.Path == "session-timeout" {
 			bgTimeout = time.Duration(p.SessS) * time.Second // they time out in the same sweep as the session under test
@@ -568,7 +648,9 @@ func runSubMgrInBubble(tc *tcase, rs *radServer, res *result, dir string) {
 	preSessions := len(x.mgr.ListSessions())
 	res.logf("before: %s alloc=%d sessions=%d", pre, preAlloc, preSessions)
 
-	x.me = &smSess{mac: net.HardwareAddr(p.MAC), cid: p.Cid, stag: p.STag, ctag: p.CTag}
+	x.me = &smSess{mac: net.HardwareAddr(p.MAC), cid: p.Cid, stag: p.STag, ctag: p.CTag, dual: p.DualStack}
+	preAlloc6 := x.alloc.allocated6()
+	x.preAlloc6 = preAlloc6
 	if tc.Path == "auth-fail" {
 		if p.In%2 == 0 {
 			x.auth.res[x.me.mac.String()] = &subscriber.AuthResult{Success: false, Error: "rejected"}
@@ -589,6 +671,9 @@ func runSubMgrInBubble(tc *tcase, rs *radServer, res *result, dir string) {
 	if x.me.ip != nil {
 		res.hold("pool")
 	}
+	if x.me.ip6 != nil {
+		res.hold("pool6")
+	}
 	w.planeHeld(res, pre)
 	for _, r := range rs.records() {
 		if r.Type == acctStart && r.SID == x.me.id {
@@ -602,12 +687,32 @@ func runSubMgrInBubble(tc *tcase, rs *radServer, res *result, dir string) {
 
 	switch tc.shape() {
 	case "none", "seq":
+		switch tc.Fault {
+		case "release-ipv4":
+			x.alloc.mu.Lock()
+			x.alloc.failV4 = 1
+			x.alloc.mu.Unlock()
+		case "release-ipv6":
+			x.alloc.mu.Lock()
+			x.alloc.failV6 = 1
+			x.alloc.mu.Unlock()
+		case "acct-stop-retried":
+			rs.failNextStops(1)
+		}
+		if tc.Fault != "" {
+			res.logf("  (fault: the next %s fails)", tc.Fault)
+		}
 		res.logf("  %s", tc.Path)
 		x.terminate(tc.Path)
 		if tc.Path == "shutdown" {
 			mgrStopped, amStopped = true, true
 		}
 		synctest.Wait()
+		if tc.Fault == "acct-stop-retried" {
+			// the AccountingManager queued the refused Stop; give its retry worker time (back-off <= 60 s)
+			x.advance(150*time.Second, x.bg)
+			synctest.Wait()
+		}
 		if res.harness != "" {
 			return
 		}
@@ -786,6 +891,9 @@ func (x *smRun) oracleAll(sigPath string, pre0 *census, all []*smSess) {
 	if n := x.alloc.allocated(); n != 0 {
 		res.fail(sig("pool"), "the allocator still holds %d address(es)", n)
 	}
+	if n := x.alloc.allocated6(); n != 0 {
+		res.fail(sig("pool6"), "the allocator still holds %d IPv6 address(es)", n)
+	}
 	x.alloc.mu.Lock()
 	free, calls := x.alloc.freeRel, map[string]int{}
 	for k, v := range x.alloc.calls {
@@ -856,6 +964,23 @@ func (x *smRun) oracle(sigPath string, pre *census, preAlloc, preSessions int, v
 	}
 	if n := x.alloc.allocated(); n != preAlloc+extra {
 		res.fail(sig("pool"), "the allocator holds %d addresses, expected %d", n, preAlloc+extra)
+	}
+	if x.me.ip6 != nil {
+		if own := x.alloc.ownerOf6(x.me.ip6); own == x.me.id {
+			res.fail(sig("pool6"), "the allocator still has the IPv6 address %s allocated to the ended session", x.me.ip6)
+		}
+		if s, ok := x.mgr.GetSessionByIP(x.me.ip6); ok && (s == nil || s.ID == x.me.id) {
+			res.fail(sig("entry"), "the IP index still has an entry for %s that points at the ended session", x.me.ip6)
+		}
+	}
+	if n := x.alloc.allocated6(); n != x.preAlloc6 {
+		res.fail(sig("pool6"), "the allocator holds %d IPv6 addresses, expected %d", n, x.preAlloc6)
+	}
+	x.alloc.mu.Lock()
+	fr, fr6 := x.alloc.freeRel, x.alloc.freeRel6
+	x.alloc.mu.Unlock()
+	if victim == nil && (fr != 0 || fr6 != 0) {
+		res.fail(sig("address-released-twice"), "an address that was free was released again (IPv4: %d, IPv6: %d times)", fr, fr6)
 	}
 	if n := x.termEvents(x.me.id); n != 1 {
 		res.fail(sig("terminate-event"), "%d terminate events were emitted for session %s, expected exactly one", n, x.me.id)
